@@ -152,7 +152,8 @@ def zoneOp (spec : Bool) (args : List String) : String :=
       ((if e then "err " else "ok ") ++ showRs rs).trimAscii.toString
   | _ => "bad-op"
 
-/-- field values on the line: `n:<dec>`, `b:<hex>`, `t:<hex>` (name text), `s:<hex>,<hex>,…` (`~` = empty string, `-` = no octets / no strings) -/
+/-- field values on the line: `n:<dec>`, `b:<hex>`, `t:<hex>` (name text), `s:<hex>,<hex>,…` (`~` = empty string, `-` = no octets / no strings),
+    `m:<hex>,…` (name texts), `k:<code>=<hex|~>,…` (options / parameters), `p:<prefix>/<0|1>/<hex>,…` (APL items), `y:<n>,…` (types) -/
 def parseVal (tok : String) : Option Val :=
   match tok.splitOn ":" with
   | ["n", v] => v.toNat?.map Val.n
@@ -161,6 +162,19 @@ def parseVal (tok : String) : Option Val :=
   | ["s", h] =>
     if h == "-" then some (.ss [])
     else (h.splitOn ",").mapM (fun x => if x == "~" then some [] else unhex x) |>.map Val.ss
+  | ["m", h] =>
+    if h == "-" then some (.ns [])
+    else (h.splitOn ",").mapM (fun x => unhex x) |>.map Val.ns
+  | ["k", h] =>
+    if h == "-" then some (.kv [])
+    else (h.splitOn ",").mapM (fun (x : String) => match x.splitOn "=" with
+      | [c, d] => (c.toNat?).bind (fun cn => (if d == "~" then some [] else unhex d).map (fun db => (cn, db)))
+      | _ => none) |>.map Val.kv
+  | ["p", h] =>
+    if h == "-" then some (.ap [])
+    else (h.splitOn ",").mapM (fun (x : String) => match x.splitOn "/" with
+      | [pl, ng, ip] => (pl.toNat?).bind (fun pn => (unhex ip).map (fun ib => (pn, ng == "1", ib)))
+      | _ => none) |>.map Val.ap
   | ["y", h] =>
     if h == "-" then some (.ts [])
     else (h.splitOn ",").mapM (fun (x : String) => x.toNat?) |>.map Val.ts
@@ -174,6 +188,12 @@ def showVal : Val → String
   | .t bs => "t:" ++ hex bs
   | .ss [] => "s:-"
   | .ss strs => "s:" ++ ",".intercalate (strs.map (fun x => if x.isEmpty then "~" else hex x))
+  | .ns [] => "m:-"
+  | .ns names => "m:" ++ ",".intercalate (names.map hex)
+  | .kv [] => "k:-"
+  | .kv items => "k:" ++ ",".intercalate (items.map (fun x => s!"{x.1}=" ++ (if x.2.isEmpty then "~" else hex x.2)))
+  | .ap [] => "p:-"
+  | .ap items => "p:" ++ ",".intercalate (items.map (fun x => s!"{x.1}/" ++ (if x.2.1 then "1" else "0") ++ "/" ++ hex x.2.2))
   | .ts [] => "y:-"
   | .ts types => "y:" ++ ",".intercalate (types.map toString)
 
